@@ -41,9 +41,11 @@ import (
 	genToken "github.com/goccmack/gocc/internal/token/gen"
 	genUtil "github.com/goccmack/gocc/internal/util/gen"
 	"github.com/goccmack/gocc/internal/util/md"
+	"github.com/goccmack/gocc/internal/verifhook"
 )
 
 func main() {
+	defer verifhook.Flush()
 	flag.Usage = usage
 	cfg, err := config.New()
 	if err != nil {
@@ -67,6 +69,7 @@ func main() {
 	grammar, err := parser.Parse(scanner)
 	if err != nil {
 		fmt.Printf("Parse error: %s\n", err)
+		verifhook.Flush()
 		os.Exit(1)
 	}
 
@@ -143,6 +146,7 @@ func handleConflicts(conflicts map[int]lr1Items.RowConflicts, numSets int, cfg c
 		io.WriteFileString(path.Join(cfg.OutDir(), "LR1_conflicts.txt"), conflictString(conflicts, numSets, prods))
 	}
 	if !cfg.AutoResolveLRConf() {
+		verifhook.Flush()
 		os.Exit(1)
 	}
 }
